@@ -8,6 +8,8 @@ use std::collections::BTreeMap;
 use crate::rng::Rng;
 
 pub const DECOY_TEXT: &str = "THIS FILE MUST NOT BE LOADED (\n";
+/// Stands for the absolute path of the tree's base directory inside include lines.
+pub const BASE_TOKEN: &str = "@@BASE@@";
 
 #[derive(Clone, Debug, Default)]
 pub struct Tree {
@@ -96,8 +98,8 @@ impl Tree {
             let n = self.fresh();
             // inside a directory covered by a glob, further files may only go into sub-directories
             // (a sibling or a file reached through `..` could match the enclosing pattern as well)
-            let mut choice = rng.below(6);
-            if in_glob_dir && matches!(choice, 0 | 2 | 3) {
+            let mut choice = rng.below(7);
+            if in_glob_dir && matches!(choice, 0 | 2 | 3 | 6) {
                 choice = 1;
             }
             match choice {
@@ -136,6 +138,14 @@ impl Tree {
                         format!("./{}", relative(file, &child))
                     };
                     self.append(file, &format!("include {}\n\n", spelled));
+                    self.build(rng, entries, i, i + k, &child, depth + 1, in_glob_dir);
+                }
+                6 => {
+                    // include written with an absolute path (the base directory is filled in when the
+                    // tree is materialised)
+                    let child = join(&dir, &format!("abs{:02}.ledger", n));
+                    self.feature("literal-absolute-path");
+                    self.append(file, &format!("include {}/{}\n\n", BASE_TOKEN, child));
                     self.build(rng, entries, i, i + k, &child, depth + 1, in_glob_dir);
                 }
                 4 => {
@@ -238,7 +248,9 @@ impl Tree {
         }
         for i in 0..n {
             let file = rng.pick(&candidates).clone();
-            let empty = join(&dir_of(&file), &format!("empty{}.ledger", i));
+            // in a directory of its own, so that a loader that loses track of "the including file"
+            // after it resolves later includes against the wrong directory
+            let empty = join(&join(&dir_of(&file), &format!("e{}", i)), "empty.ledger");
             if self.files.contains_key(&empty) {
                 continue;
             }
@@ -246,7 +258,7 @@ impl Tree {
             if dir_of(&file).rsplit('/').next().map(|d| d.starts_with('g') || d.starts_with("20")).unwrap_or(false) {
                 continue;
             }
-            self.files.insert(empty.clone(), String::new());
+            self.files.insert(empty.clone(), if rng.chance(1, 2) { String::new() } else { "\n  \n\t\n".to_string() });
             let content = self.files.get_mut(&file).unwrap();
             *content = format!("include {}\n\n{}", relative(&file, &empty), content);
             for k in 0..self.placement.len() {
@@ -259,7 +271,16 @@ impl Tree {
     }
 
     pub fn as_fake(&self, base: &str) -> Vec<(String, String)> {
-        self.files.iter().map(|(p, c)| (format!("{}/{}", base, p), c.clone())).collect()
+        self.files.iter().map(|(p, c)| (format!("{}/{}", base, p), c.replace(BASE_TOKEN, base))).collect()
+    }
+
+    /// The same tree with *relative* keys (`top/main.ledger`): files that end up at the top level
+    /// then have an empty parent directory. Only usable when no include is spelled absolutely.
+    pub fn as_fake_relative(&self) -> Option<Vec<(String, String)>> {
+        if self.files.values().any(|c| c.contains(BASE_TOKEN)) {
+            return None;
+        }
+        Some(self.files.iter().map(|(p, c)| (p.clone(), c.clone())).collect())
     }
 
     pub fn write_real(&self, base: &std::path::Path) -> std::io::Result<()> {
@@ -268,7 +289,7 @@ impl Tree {
             if let Some(parent) = full.parent() {
                 std::fs::create_dir_all(parent)?;
             }
-            std::fs::write(full, c)?;
+            std::fs::write(full, c.replace(BASE_TOKEN, &base.to_string_lossy()))?;
         }
         Ok(())
     }
